@@ -286,7 +286,15 @@ def check_heap(rep, repo: Repo, pre: str = "") -> None:
             continue
         li = loops[0]
         I = ("phi", li.lid, w.entry.params[1])
-        cs = conj(li.cond)
+        cs = [] if li.cond == ("const", True) else list(conj(li.cond))
+        # continuation tests written as `if not <test>: break` at the top of the body (before anything is moved)
+        first_store = min([e.seq for e in w.events if e.kind == "store" and li.lid in e.loops] or [10 ** 9])
+        base_f = set(facts(li.guards)) | set(cs)
+        for bk in w.events:
+            if bk.kind == "break" and bk.loops and bk.loops[-1] == li.lid and bk.seq < first_store:
+                own = [f for f in facts(bk.guards) if f not in base_f]
+                if len(own) == 1:
+                    cs.append(mk_not(own[0]))
         pos_guard = [c for c in cs if c in (("cmp", "<", ("const", 0), I), ("cmp", "<=", ("const", 1), I))]
         fnode = li.node
         rep.fn(pre + "H3-up-root", w.entry, "while " + unparse(fnode.test) + f"  [{pol}]", len(pos_guard) == 1,
@@ -332,8 +340,10 @@ def check_heap(rep, repo: Repo, pre: str = "") -> None:
             return sel_leaves(t[2]) | sel_leaves(t[3])
         return {t}
 
+    from .ir import derived_phis, substitute_view
     for pol in ("min", "max"):
         w = SP[("go_down", pol)]
+        w = substitute_view(w, derived_phis(w))  # `left` carried next to `i` as left_son(i)
         # child selections: binds whose value is left_son(I) / right_son(I) (or 2I+1 / 2I+2) under a cost test
         cands = []
         for e in w.events:
@@ -350,6 +360,9 @@ def check_heap(rep, repo: Repo, pre: str = "") -> None:
                     atom = [k for k in lf if k != 1][0]
                     if lf.get(atom) == 2 and lf.get(1) in (1, 2):
                         cur, which = atom, ("left" if lf.get(1) == 1 else "right")
+                    elif lf.get(atom) == 1 and lf.get(1) == 1 and atom[0] == "call" and atom[1] == ("attr", SELF, "left_son") \
+                            and len(atom[2]) == 1:
+                        cur, which = strip_old(atom[2][0]), "right"  # left_son(x) + 1 is right_son(x) (H4)
             if cur is not None and any(_cost_cmp(c) for c in facts(e.guards)):
                 cands.append((e, v, cur, which))
         if len(cands) != 2 or {c[3] for c in cands} != {"left", "right"}:
@@ -600,17 +613,30 @@ def check_heap(rep, repo: Repo, pre: str = "") -> None:
                "the failing path must return a falsy value and nothing else")
         lasts = [e for e in w.events if e.kind == "store" and e.target == LAST]
         okl = len(lasts) == 1 and lasts[0].aug == delta and lasts[0].value == ("const", 1)
+        if len(lasts) == 1 and not lasts[0].aug:
+            # `slot = self.last + 1; self.last = slot` / `tail = self.last; ...; self.last = tail - 1`
+            from .schema import rewrite
+            v = rewrite(lasts[0].value, lambda t: t[1] if t[0] == "old" and t[1] == LAST else None)
+            okl = lin_eq(_sub(lin(v), lin(LAST)), {1: 1 if delta == "+" else -1})
         rep.fn(pre + "H6-last", w.entry, f"last changes by {delta}1 exactly once", okl,
                f"found {[e.text() for e in lasts]}")
         if not okl:
             continue
         ls = lasts[0].seq
         if name == "insert":
-            place = [e for e in w.events if e.kind == "store" and e.target == ("idx", P, LAST) and e.value == pin]
-            okp = len(place) == 1 and place[0].seq > ls
+            # the new last position: `self.last` read after the store, or the very value that was stored into it
+            def is_newlast(x, seq):
+                if x == LAST:
+                    return seq > ls
+                return not lasts[0].aug and x[0] == "old" and x[1] == lasts[0].value and seq > ls  # a local holding last + 1
+
+            place = [e for e in w.events if e.kind == "store" and e.target[0] == "idx" and e.target[1] == P
+                     and is_newlast(e.target[2], e.seq) and e.value == pin]
+            okp = len(place) == 1
             rep.fn(pre + "H6-place", w.entry, "the new element is placed at the new last position", okp,
                    "p[last] = p must follow last += 1")
-            sift = [e for e in w.events if e.kind == "call" and e.name == "go_up" and e.args == (LAST,)]
+            sift = [e for e in w.events if e.kind == "call" and e.name == "go_up" and len(e.args) == 1
+                    and is_newlast(e.args[0], e.seq)]
             rep.fn(pre + "H6-sift", w.entry, "the new element is sifted up from last",
                    len(sift) == 1 and sift[0].seq > ls and (not place or sift[0].seq > place[0].seq),
                    "go_up(last) must follow the placement")
